@@ -209,7 +209,8 @@ def run_c19(tier, seed, replay):
     rng = random.Random(seed * 1000003 + 19)
     cases = []
     stack_kinds = [("stack:48", "clone"), ("stack:512", "clone"), ("stackn:3:512", "clone")]
-    lays = [G.CORE_LAYOUT, (3, 1, 1), (0, 1, 0), (16, 16, 1)] if tier == "quick" else G.LAYOUTS
+    # over-aligned element types included: the stack buffers' own alignment is part of what must not depend on the feature set
+    lays = [G.CORE_LAYOUT, (3, 1, 1), (0, 1, 0), (16, 16, 1), (64, 64, 1), (160, 32, 1)] if tier == "quick" else G.LAYOUTS
     def stack_setup(c, bk, traits, L, rng_):
         v0 = c.new(0, bk, traits); v1 = c.new(0, "stack:512", "clone"); v2 = c.new(1, "stack:512", "clone")
         G.fill(c, v0, L, rng_); G.fill(c, v1, 2, rng_); c.add("push %d w1" % v2)
@@ -217,13 +218,21 @@ def run_c19(tier, seed, replay):
     try:
         for layout in lays:
             ks = [k for k in stack_kinds if (G.kind_cap(k[0], layout[0]) or 0) >= 4]
+            lens_e, lens_r = [0, 2, 3], [0, 3]
+            if not ks:
+                ks = [k for k in stack_kinds if (G.kind_cap(k[0], layout[0]) or 0) >= 3]
+                lens_e, lens_r = [0, 2], [0, 2]
             if not ks: continue
-            cases += list(G.gen_elementwise(rng, [layout], ks[:1], [0, 2, 3], tag="na%d_%d_%d_" % layout))
-            cases += list(G.gen_ranges(rng, [layout], ks[:1], [0, 3], "nar%d_%d_%d_" % layout, strings_cap=4))
+            cases += list(G.gen_elementwise(rng, [layout], ks[:1], lens_e, tag="na%d_%d_%d_" % layout))
+            cases += list(G.gen_ranges(rng, [layout], ks[:1], lens_r, "nar%d_%d_%d_" % layout, strings_cap=4))
             for i in range(6 if tier == "quick" else 40):
                 cases.append(G.rand_history(rng, "nah%d_%d_%d_%d" % (layout + (i,)), layout, ks, 150, 20, ranges=True, clones=True))
     finally:
         G.setup3 = saved
+    for c in cases:
+        # the storage pointer's alignment remainder is part of the compared behaviour
+        k = next((i for i, l in enumerate(c.lines) if l.startswith("dropvec") or l == "release"), len(c.lines))
+        c.lines.insert(k, "views 0")
     stats = {"cases": 0, "steps": 0, "validated": 0}
     h_def, out = R.build_harness("dev"); h_no, out2 = R.build_harness("dev", features="noalloc")
     if h_no is None:
